@@ -259,6 +259,6 @@ func main() {
 		}
 	}
 	res.Info["configs"] = len(configs())
-	res.DistinctNontrivial = int64(len(outcomes))
+	res.SetDistinctKeys(outcomes)
 	res.Finish()
 }
